@@ -35,13 +35,23 @@ def step (j : Json) : Option String := do
     | some v => some v
     | none => none
   let n ← fNat j "cycles"
-  let prog ← match kind with
-    | "slow" => do pure (slowRun (← (← fArr j "terms").mapM term) n)
+  let showRes := fun (r : Res Act) => joinSp (r.trace.map showAct) ++ " | " ++ showOut r.out ++ " | " ++ toString r.idx
+  -- earlier runs of the same group object, each cancelled at that await
+  let prev : List (Option Nat) := match fArr j "prev" with
+    | some l => l.filterMap fun x => (jNat x).map some
+    | none => []
+  let mk ← match kind with
+    | "slow" => pure (some fun ts => slowRun ts n)
     | "fast" => do
-      pure (fastRun (← (← fArr j "busy").mapM jNat) (← fNat j "index") (← (← fArr j "terms").mapM term) n)
-    | "proc" => do pure (procRun (← fBool j "selfExit") n)
+      let busy ← (← fArr j "busy").mapM jNat
+      let index ← fNat j "index"
+      pure (some fun ts => fastRun busy index ts n)
+    | "proc" => pure none
     | _ => none
-  let r := run k prog 0
-  pure (joinSp (r.trace.map showAct) ++ " | " ++ showOut r.out ++ " | " ++ toString r.idx)
+  match mk with
+  | some mk =>
+    let ts ← (← fArr j "terms").mapM term
+    pure (" || ".intercalate ((runsOf mk (prev ++ [k]) ts).map showRes))
+  | none => pure (showRes (run k (procRun (← fBool j "selfExit") n) 0))
 
 def main : IO Unit := driverMain step
